@@ -461,6 +461,12 @@ def may_modify(eng, fr, stmts, depth=0, seen=None):
                 eff = list(cl.spec.ghost)
             for g in eff:
                 out.add(("ghost", g))
+            # a boundary callback that may call back into the cluster (delegated application): what it may run
+            rtbl = getattr(eng, "boundary_reenters", {})
+            for (onm2, meth2) in rtbl.get(f"{obj.cls}.{meth}", rtbl.get(f"{obj.cls}.*", [])):
+                out.add(("ghost", "api_closed"))
+                if not visit_call(objs[onm2], meth2, depth + 1):
+                    return False
             return True
         key = (onm, meth)
         if key in seen:
